@@ -338,6 +338,30 @@ func msgSignersPart() mc.Part {
 					} else if !sameSigners(got, want) {
 						c.add(fmt.Sprintf("C20/msg/get-signers-wrong/gogo/%s", name), fmt.Sprintf("codec.GetMsgV1Signers on %T returns %x, want %x", gm, got, want), f.Path, string(name))
 					}
+					// differential oracle for "the field that holds the signer's address": where the hand-written Go type
+					// still has the legacy GetSigners(), both notions of who signs must agree on a message whose every
+					// string field holds a different address
+					if fm := fillAddresses(mt, leaves[0].names); fm != nil {
+						if fb, err := pulsarEncode(fm); err == nil {
+							if fgm, err := gogoDecode(gt, fb); err == nil {
+								if lg, ok := fgm.(interface{ GetSigners() []sdk.AccAddress }); ok {
+									var legacy [][]byte
+									func() {
+										defer func() { _ = recover() }()
+										for _, a := range lg.GetSigners() {
+											legacy = append(legacy, a)
+										}
+									}()
+									v1, _, err := app.cdc.GetMsgV1Signers(fgm)
+									evals++
+									if legacy != nil && err == nil && !sameSigners(v1, legacy) {
+										c.add(fmt.Sprintf("C20/msg/signer-differs-from-legacy-get-signers/%s", name),
+											fmt.Sprintf("%s: the field named by cosmos.msg.v1.signer yields %x, the type's own GetSigners() %x (every string field was set to a different address)", name, v1, legacy), f.Path, string(name))
+									}
+								}
+							}
+						}
+					}
 					if len(samples) < 3 {
 						samples = append(samples, fmt.Sprintf("%s: signer %s (scalar %q) -> registry %T, signers %x", name, strings.Join(leaves[0].names, "."),
 							optionString(leaves[0].fd.Options(), "cosmos_proto.scalar"), resolved, got))
@@ -392,4 +416,48 @@ func sameSigners(a, b [][]byte) bool {
 		}
 	}
 	return true
+}
+
+// fillAddresses builds a message of the type whose every string field holds a different valid bech32 account
+// address: all top-level string fields, and those of the nested messages along the declared signer path (other
+// nested messages - coins, custom number types - are left empty so that the message still decodes).
+func fillAddresses(mt protoreflect.MessageType, signerPath []string) protoreflect.Message {
+	n := 0
+	var fill func(m protoreflect.Message, path []string)
+	fill = func(m protoreflect.Message, path []string) {
+		fds := m.Descriptor().Fields()
+		for i := 0; i < fds.Len(); i++ {
+			fd := fds.Get(i)
+			if fd.IsList() || fd.IsMap() {
+				continue
+			}
+			switch fd.Kind() {
+			case protoreflect.StringKind:
+				n++
+				m.Set(fd, protoreflect.ValueOfString(sdk.AccAddress(h20(n)).String()))
+			case protoreflect.MessageKind:
+				if len(path) > 1 && string(fd.Name()) == path[0] {
+					fill(m.Mutable(fd).Message(), path[1:])
+				}
+			}
+		}
+	}
+	m := mt.New()
+	func() {
+		defer func() {
+			if recover() != nil {
+				m = nil
+			}
+		}()
+		fill(m, signerPath)
+	}()
+	return m
+}
+
+func h20(n int) []byte {
+	b := make([]byte, 20)
+	for i := range b {
+		b[i] = byte(n*31 + i)
+	}
+	return b
 }
